@@ -150,7 +150,7 @@ package watermark
 //@   invariant forall(Int(k), (has(waiters, k) && seen[k] && k != t) ==> k > doneUntil, trig(dom(waiters, k)))
 //@   invariant wmLive(waiters)
 //@   invariant wmClosedOK(doneUntil)
-//@ before_call Store#0: assert doneUntil > w.doneUntil.v
+//@ before_call (*atomic.Uint64).Store#0: assert doneUntil > w.doneUntil.v
 // ghost bookkeeping happens when the mark is taken from the channel, independently of what the code
 // then does with it
 //@ after_assign assign m: ghost Stood = ite(m.waiter == nil && !m.done && !(has(pending, m.ts) && pending[m.ts] > 0), store(Stood, m.ts, w.doneUntil.v), Stood)
